@@ -171,7 +171,9 @@ def run_case(case):
                            capture_output=True, text=True, env=env)
         if p.returncode != 0:
             raise RuntimeError("baseline failed: " + p.stderr[-2000:])
-        case = dict(case, fixture=os.path.join(root, "fixture"))
+        # the single-process observation is recomputed as well (a replay file may stem from an older observation format)
+        fresh_base = json.loads(p.stdout.strip().splitlines()[-1])
+        case = dict(case, fixture=os.path.join(root, "fixture"), baseline=fresh_base[case["program"]])
     prog, size, mw = case["program"], case["size"], case["max_workers"]
     sm, cm = case["send_mode"], case["coll_mode"]
     calls = {}
